@@ -153,9 +153,9 @@ func c09Body(t *testing.T, s *sim.Scn, o *sim.Outcome) {
 		}
 	}
 	callsSeen := 0
-	cursor := first       // the height the scan must examine next
-	lastOK := true        // did the last fetch of `cursor-in-progress` complete
-	inFetch := uint64(0)  // height of the fetch in progress
+	cursor := first      // the height the scan must examine next
+	lastOK := true       // did the last fetch of `cursor-in-progress` complete
+	inFetch := uint64(0) // height of the fetch in progress
 	fetching := false
 	pendingChunks := false
 	_ = pendingChunks
